@@ -2,7 +2,7 @@
    upd, parents lists, the literal index, the core, sort_nat, extensionality of countsA. *)
 From Coq Require Import List ZArith Bool Lia.
 From DD Require Import Model.Circuit Model.Query Proofs.PassLemmas Proofs.Enum Proofs.Semantics
-  Proofs.CountsA Proofs.QueryDefs.
+  Proofs.CountsA Proofs.QueryDefs Proofs.Live.
 Import ListNotations.
 Open Scope Z_scope.
 
@@ -192,12 +192,14 @@ Proof. rewrite <- has_lit_spec. destruct (has_lit C l); split; intros; congruenc
 
 (* ---------- core ---------- *)
 
+(* a core literal is a leaf and its complement occurs in no configuration of the root (the
+   complement may still be a leaf of a dead branch: Proofs/Live.v) *)
 Lemma core_spec (C : circuit) (n : nat) (f : Z) :
-  In f (calculate_core C n) -> In (Lit f) C /\ ~ In (Lit (- f)) C.
+  idx_ok C = true -> C <> [] ->
+  In f (calculate_core C n) ->
+  In (Lit f) C /\ forall c, In c (enum_root C) -> ~ In (- f) c.
 Proof.
-  unfold calculate_core. intros H. apply filter_In in H. destruct H as [_ H].
-  apply andb_true_iff in H. destruct H as [H1 H2]. apply negb_true_iff in H2.
-  split; [now apply has_lit_spec|now apply has_lit_false].
+  intros Hok Hne H. split; [exact (core_leaf C n f Hok Hne H)|exact (core_enum_spec C n f Hok Hne H)].
 Qed.
 
 (* ---------- filter_map / opposing indexes ---------- *)
